@@ -1857,6 +1857,9 @@ func handleClientMessage(c *webClient, m clientMessage) error {
 			if err != nil {
 				return terror("error", err.Error())
 			}
+			if old.Group != c.group.Name() {
+				return terror("error", "token not found")
+			}
 			t := old.Clone()
 			if tok.Expires != nil {
 				t.Expires = tok.Expires
